@@ -485,6 +485,16 @@ def run(ctx):
                       outcome_norm=_with_raise_args if live_name == "error"
                       else None, independent=_char_observation)
         _verdict(run, rule, lf, what, r, m)
+    # the directives' arguments: the whole rest of the line, stripped; for
+    # %define split at the first run of whitespace into name and value
+    for live_name, what in (("handle_define", "name and value of %define"),
+                            ("handle_import", "argument of %import"),
+                            ("handle_include", "argument of %include")):
+        lf = m.fn(PC + "." + live_name)
+        kw = {"extra_pure": ("isname",)}
+        r = X.compare(P, lf, X.spec_method(P, REF, live_name, PC),
+                      live_kw=kw, ref_kw=kw)
+        _verdict(run, "C03.R7", lf, what, r, m)
     # parse(): the normal exit is guarded by the "stack empty" test
     tails = []
     for p in paths:
